@@ -110,6 +110,10 @@ randomly before going deeper in the tree.
 		defer closeWriteFile(logf, outlogfile)
 
 		for t := range treechan {
+			if t.Err != nil {
+				io.LogError(t.Err)
+				return t.Err
+			}
 			nsteps, err = asr.ParsimonyAsr(t.Tree, align, algo, asrrandomresolve)
 			if err != nil {
 				io.LogError(err)
